@@ -56,15 +56,15 @@ var cores = []core{
 	// range loop believes about the buffer when it starts is out of date when its
 	// body (or another goroutine) has taken a value; the loop ends up waiting on the
 	// empty channel and that wait must see the cancellation
-	// a backlog of 60 values: a loop that takes a waiting value must still look at
+	// a backlog of 30 values: a loop that takes a waiting value must still look at
 	// the context every time round (with or without a body), so that the number of
 	// steps after the cancellation stays small whatever the backlog
-	{"range-backlog-empty-body", "for x in feed { }", true, 0, false},
-	{"range-backlog-body", "for x in feed { s(1) }", true, 0, false},
-	{"recv-backlog-loop", "for { x = <-feed }", true, 0, false},
+	{"range-backlog-empty-body", "for x in feed { }", true, 1, false},
+	{"range-backlog-body", "for x in feed { s(1) }", true, 1, false},
+	{"recv-backlog-loop", "for { x = <-feed }", true, 1, false},
 	{"range-body-takes", "sh = make(chan int64, 2)\nsh <- 1\nsh <- 2\nfor x in sh { y = <-sh; s(1) }", true, 0, false},
-	{"range-two-takers", "sh = make(chan int64, 2)\nsh <- 1\nsh <- 2\ngo func() { for y in sh { s(2) } }()\nfor x in sh { s(1) }", true, 2, true},
-	{"recv-two-takers", "sh = make(chan int64, 2)\nsh <- 1\nsh <- 2\ngo func() { <-sh; s(2); <-sh }()\n<-sh\ns(1)\n<-sh\n<-sh", true, 2, true},
+	{"range-two-takers", "sh = make(chan int64, 2)\nsh <- 1\nsh <- 2\ngo func() { for y in sh { s(2) } }()\nfor x in sh { s(1) }", true, 1, true},
+	{"recv-two-takers", "sh = make(chan int64, 2)\nsh <- 1\nsh <- 2\ngo func() { <-sh; s(2); <-sh }()\n<-sh\ns(1)\n<-sh\n<-sh", true, 1, true},
 }
 
 type wrapper struct {
@@ -306,12 +306,7 @@ func newEnv(logf func(i int64)) *env.Env {
 	e.Define("long", long)
 	e.Define("longmap", lm)
 	e.Define("never", make(chan int64))
-	// a channel with a long backlog: 60 values are waiting, nobody sends more
-	feed := make(chan int64, 64)
-	for i := int64(0); i < 60; i++ {
-		feed <- i
-	}
-	e.Define("feed", feed)
+
 	e.Define("hostcall", func(cb func() interface{}) interface{} { return cb() })
 	e.Define("h2", func(a, b interface{}) interface{} { return a })
 	e.Define("hv", func(a ...interface{}) interface{} { return int64(len(a)) })
@@ -333,6 +328,14 @@ func runOnce(p program, ch sched.Chooser, record bool, pollCap int64) (r result,
 		}
 		r.probes = append(r.probes, probe{id: i, after: r.cancelled, thread: tid})
 	})
+	if strings.Contains(p.Src, "feed") || strings.Contains(p.Pre, "feed") {
+		// a channel with a long backlog: 30 values are waiting, nobody sends more
+		feed := make(chan int64, 32)
+		for i := int64(0); i < 30; i++ {
+			feed <- i
+		}
+		e.Define("feed", feed)
+	}
 	mainReturned := false
 	_ = mainReturned
 	cfg := vmrun.Config{Fuel: -1, PollPoints: true, Record: record, MaxSteps: 4000,
@@ -427,7 +430,7 @@ var maxStepsAfterCancel int64
 
 // stepsAfterCancelBound: every thread may make depth+2 polls and a handful of
 // channel steps while it unwinds (measured maximum on the unchanged tree: see the
-// evidence counter max_steps_after_cancel); 60 waiting values are far beyond it.
+// evidence counter max_steps_after_cancel); 30 waiting values are beyond it for the programs that use them (bare or under one wrapper: at most 26).
 func stepsAfterCancelBound(p program) int {
 	threads := 1 + strings.Count(p.Src, "go func")
 	return threads*(p.Depth+2+6) + 8
